@@ -61,12 +61,13 @@ def observer(got, pred, sp, call, sg, prog, ctx, part):
                 if path == 'iterative':
                     compiler._compile_cached.cache_clear()
             bump(part, 'compile_paths', path)
+            pb = progjudge.PointBuffer()
             for pt, (want, tol) in pts:
                 try:
                     if path == 'dict':
                         have = progjudge.tofloat(f({n: float(pt[n]) for n in V}))
                     else:
-                        have = progjudge.tofloat(f(np.array([float(pt[n]) for n in V], dtype=float)))
+                        have = progjudge.tofloat(f(pb.at([float(pt[n]) for n in V])))
                 except Exception as e:
                     bad('compiled callable raises %s' % type(e).__name__, {'V': V, 'path': path})
                     return
